@@ -454,6 +454,7 @@ type SpecFn struct {
 	Opaque bool // declared as an uninterpreted function plus a defining axiom triggered on its applications
 	Pkg    string // import path of the package whose contract file defines it ("" for stand-alone spec files)
 	Abstract bool // opaque, and the defining axiom is only available inside lemma proofs
+	Macro  bool // expanded at every use, in the state of the using clause (may read memory through its arguments)
 }
 
 type Axiom struct {
@@ -498,6 +499,7 @@ type ContractSet struct {
 	TypeInvs map[string]*Clause // pkgpath::TypeName -> invariant over `self`
 	Ghosts   map[string]*GhostDef
 	Sweeps  []*Sweep
+	Immutables []*Immutable
 }
 
 // Sweep: a safety-only contract template instantiated for every function declared in a source file.
@@ -546,7 +548,7 @@ var assertAtRe = regexp.MustCompile(`^at\s+([^\s:]+)\s*:\s*(.*)$`)
 
 var clauseKeywords = map[string]bool{"func": true, "external": true, "requires": true, "ensures": true, "loop": true,
 	"modifies": true, "pure": true, "mode": true, "safety": true, "assert": true, "panics": true, "specfn": true,
-	"axiom": true, "lemma": true, "inline": true, "option": true, "unroll": true, "typeinv": true, "sweep": true, "uses-global": true, "let": true, "ghost": true}
+	"axiom": true, "lemma": true, "inline": true, "option": true, "unroll": true, "typeinv": true, "sweep": true, "uses-global": true, "let": true, "ghost": true, "immutable": true}
 
 // GhostDef: a verifier-only field. `name(x)` in specifications reads it; `modifies name(x)` lets a contract change it.
 type GhostDef struct {
@@ -742,6 +744,14 @@ func loadContractFile(cs *ContractSet, path, pkgPath string) error {
 				return fail(fmt.Errorf("ghost needs: name *ObjectType ResultType"))
 			}
 			cs.Ghosts[fs[1]] = &GhostDef{Name: fs[1], ObjType: fs[2], ResType: fs[3], Pkg: pkgPath}
+		case "immutable":
+			// immutable [Cxx ...] TypeName field field ...
+			props, _, r := parseLabel(rest)
+			ff := strings.Fields(r)
+			if len(ff) < 2 {
+				return fail(fmt.Errorf("immutable needs a type and at least one field"))
+			}
+			cs.Immutables = append(cs.Immutables, &Immutable{Pkg: pkgPath, Type: ff[0], Fields: ff[1:], Props: props})
 		case "typeinv":
 			// typeinv TypeName E
 			if len(fs) < 3 {
@@ -806,7 +816,7 @@ func loadContractFile(cs *ContractSet, path, pkgPath string) error {
 }
 
 // specfn name(a T, b T) R = body
-var specFnRe = regexp.MustCompile(`^(rec\s+|opaque\s+|abstract\s+)?(\w+)\s*\(([^)]*)\)\s*([\w\[\]\.\*]+)\s*(=\s*(.*))?$`)
+var specFnRe = regexp.MustCompile(`^(rec\s+|opaque\s+|abstract\s+|macro\s+)?(\w+)\s*\(([^)]*)\)\s*([\w\[\]\.\*]+)\s*(=\s*(.*))?$`)
 
 func parseSpecFn(s string) (*SpecFn, error) {
 	m := specFnRe.FindStringSubmatch(s)
@@ -814,7 +824,7 @@ func parseSpecFn(s string) (*SpecFn, error) {
 		return nil, fmt.Errorf("bad specfn %q", s)
 	}
 	sf := &SpecFn{Name: m[2], Ret: m[4], Rec: strings.HasPrefix(m[1], "rec"), Opaque: strings.HasPrefix(m[1], "opaque") || strings.HasPrefix(m[1], "abstract"),
-		Abstract: strings.HasPrefix(m[1], "abstract")}
+		Abstract: strings.HasPrefix(m[1], "abstract"), Macro: strings.HasPrefix(m[1], "macro")}
 	if strings.TrimSpace(m[3]) != "" {
 		var pending []string
 		for _, p := range strings.Split(m[3], ",") {
